@@ -36,7 +36,12 @@ Through == {
                   En("mid", Bin(">", Ref("s"), Num(5))), En("far", Bin(">", Ref("t"), Num(20)))>>, CI("c")),
   PC("through", <<Chest("pa", 0, 0), Chest("pb", 0, 2), Lamp("pl", 30, 0), En("pl", Bin(">", Iron("pa"), Num(5))), SProp("pl", "r", Sel(EOut("pb"), "copper-plate"))>>, CI("pa") \o <<[ent |-> "pb", item |-> "copper-plate"]>>)
  }
-All == Through \cup {Far(d) : d \in {12, 25, 45}} \cup {Far2(d) : d \in {10, 20}} \cup {Row(n, g) : n \in {6, 12}, g \in {2, 5}} \cup {Long(n) : n \in {6, 14, 26}}
+\* tall / wide arrangements of user entities declared from the far end first, in the middle first, and in order
+Col(n, ys) == P(n, <<InA>> \o [i \in DOMAIN ys |-> Lamp("l" \o ToString(i), 0, ys[i])] \o [i \in DOMAIN ys |-> En("l" \o ToString(i), Bin(">", A, Num(i)))])
+RowX(n, xs) == P(n, <<InA>> \o [i \in DOMAIN xs |-> Lamp("l" \o ToString(i), xs[i], 0)] \o [i \in DOMAIN xs |-> En("l" \o ToString(i), Bin(">", A, Num(i)))])
+Columns == {Col("column", <<30, 27, 24, 21, 18, 15, 12, 9, 6, 3, 0>>), Col("column", <<0, 3, 6, 9, 12, 15, 18, 21, 24, 27, 30>>), Col("column", <<15, 30, 0, 24, 6>>),
+            RowX("column", <<30, 24, 18, 12, 6, 0>>), RowX("column", <<0, 6, 12, 18, 24, 30>>), Col("column", <<-20, -10, 0>>), RowX("column", <<-20, 5, -8>>)}
+All == Through \cup Columns \cup {Far(d) : d \in {12, 25, 45}} \cup {Far2(d) : d \in {10, 20}} \cup {Row(n, g) : n \in {6, 12}, g \in {2, 5}} \cup {Long(n) : n \in {6, 14, 26}}
        \cup {Wide(n) : n \in {5, 12}} \cup {MemFar}
 ASSUME PrintT(<<"NPROGS", Cardinality(All)>>)
 ASSUME JsonSerialize(IOEnv.GEN_OUT, SetToSeq(All))
